@@ -664,6 +664,7 @@ pub fn spaces(tier: Tier, _seed: u64) -> Vec<Box<dyn Space>> {
     match tier {
         Tier::Quick => {
             v.push(Box::new(ScopeHistories { family: 0, max_len: 5, nops: N_QUICK_OPS }));
+            v.push(Box::new(ScopeHistories { family: 0, max_len: 4, nops: OPS.len() }));
             v.push(Box::new(ScopeHistories { family: 1, max_len: 4, nops: N_QUICK_OPS }));
             v.push(Box::new(ScopeHistories { family: 2, max_len: 4, nops: N_QUICK_OPS }));
             v.push(Box::new(ScopeHistories { family: 3, max_len: 4, nops: N_QUICK_OPS }));
